@@ -1,1 +1,602 @@
+#!/usr/bin/env python3
+"""Translator (tie #1): reads the SOURCE TEXT of /repo (never imports it) with `ast` and regenerates
+lean/Autobean/Generated/{Consts,Schema,Effects}.lean.  Files are rewritten only when their content changes.
+
+usage: extract.py <repo root> <output dir>
+
+What is extracted
+* Consts  - the four load-factor constants of token_store.py (constant expressions evaluated), the PostLex split
+            regex and token-type names, the spacing regex, the escape map of EscapedString, terminal definitions of
+            beancount.lark that the codec/lexer models were written for, open() newline modes and the makedirs guard
+            of editor.py.
+* Schema  - for every class of models/generated/*.py: RULE, fields in declaration order with cardinality,
+            separators / separators_before (token class + its DEFAULT text), pivot / first_token / last_token
+            chains, the field lists of clone / _reattach / _eq, the from_children token sequence and reattach
+            calls, the auto_claim_comments call sequence, iter_children_formatted order, raw-property wiring.
+* Effects - a conservative, name-based write/call table over every def of the package (tests, modelgen,
+            meta_models excluded): defs that store `_raw_text` / a token `size`, defs that call a store mutator,
+            and for every read-only role (property getters, custom_property getters, __eq__/__hash__/__iter__/
+            __len__/__getitem__/__contains__/tokens/print_model/__deepcopy__) the store mutators reachable from it
+            through plain function calls and self-method calls.
+An unreadable construct is recorded as `extractErrors` (the obligations require that list to be empty).
+"""
+from __future__ import annotations
+import ast
+import re
 import sys
+from pathlib import Path
+
+ERRORS: list[str] = []
+
+
+def lstr(s: str) -> str:
+    out = ['"']
+    for c in s:
+        o = ord(c)
+        if c == '"':
+            out.append('\\"')
+        elif c == '\\':
+            out.append('\\\\')
+        elif c == '\n':
+            out.append('\\n')
+        elif c == '\t':
+            out.append('\\t')
+        elif c == '\r':
+            out.append('\\r')
+        elif o < 32 or o == 127:
+            out.append('\\x%02x' % o)
+        else:
+            out.append(c)
+    out.append('"')
+    return ''.join(out)
+
+
+def llist(items, f=lambda x: x):
+    return '[' + ', '.join(f(i) for i in items) + ']'
+
+
+def write_if_changed(path: Path, text: str):
+    if path.exists() and path.read_text() == text:
+        return False
+    path.parent.mkdir(parents=True, exist_ok=True)
+    path.write_text(text)
+    return True
+
+
+# ---------------------------------------------------------------------------------------------------- Consts
+
+def const_eval(node, env):
+    return eval(compile(ast.Expression(node), '<const>', 'eval'), {'__builtins__': {}}, dict(env))
+
+
+def extract_consts(repo: Path):
+    out = {}
+    # load factors
+    tree = ast.parse((repo / 'autobean_refactor/token_store.py').read_text())
+    env = {}
+    names = ['_LOAD_FACTOR', '_DOUBLE_LOAD_FACTOR', '_HALF_LOAD_FACTOR', '_ONE_HALF_LOAD_FACTOR']
+    for node in tree.body:
+        if isinstance(node, ast.Assign) and len(node.targets) == 1 and isinstance(node.targets[0], ast.Name) and node.targets[0].id in names:
+            try:
+                env[node.targets[0].id] = const_eval(node.value, env)
+            except Exception as e:
+                ERRORS.append(f'token_store.{node.targets[0].id}: {e}')
+    out['lf'] = [env.get(n) for n in names]
+    if any(not isinstance(v, int) or v < 0 for v in out['lf']):
+        ERRORS.append(f'load-factor constants not all natural numbers: {out["lf"]}')
+        out['lf'] = [v if isinstance(v, int) and v >= 0 else 0 for v in out['lf']]
+    # parser: PostLex constants
+    ptree = ast.parse((repo / 'autobean_refactor/parser.py').read_text())
+    postlex = {}
+    for node in ast.walk(ptree):
+        if isinstance(node, ast.ClassDef) and node.name == 'PostLex':
+            for st in node.body:
+                if isinstance(st, ast.Assign) and len(st.targets) == 1 and isinstance(st.targets[0], ast.Name):
+                    n = st.targets[0].id
+                    v = st.value
+                    if isinstance(v, ast.Constant) and isinstance(v.value, str):
+                        postlex[n] = v.value
+                    elif isinstance(v, ast.Call) and getattr(v.func, 'attr', '') == 'compile' and v.args and isinstance(v.args[0], ast.Constant):
+                        flags = ast.unparse(v.args[1]) if len(v.args) > 1 else ''
+                        postlex[n] = v.args[0].value
+                        postlex[n + '#flags'] = flags
+    out['postlex'] = postlex
+    for k in ('_NEWLINE_INDENT_COMMENT_SPLIT_RE', '_NEWLINE_INDENT_COMMENT', '_NEWLINE', '_EOL', '_INDENT_MARK', '_DEDENT_MARK', '_INDENT', '_BLOCK_COMMENT'):
+        if k not in postlex:
+            ERRORS.append(f'parser.PostLex.{k} not found')
+    # builder dispatch constants: string literals compared in _build_tree
+    disp = []
+    for node in ast.walk(ptree):
+        if isinstance(node, ast.FunctionDef) and node.name == '_build_tree':
+            for c in ast.walk(node):
+                if isinstance(c, ast.Constant) and isinstance(c.value, str):
+                    disp.append(c.value)
+    out['build_tree_literals'] = disp
+    # spacing regex
+    stree = ast.parse((repo / 'autobean_refactor/models/internal/spacing_accessors.py').read_text())
+    out['spacing_re'] = ''
+    for node in stree.body:
+        if isinstance(node, ast.Assign) and getattr(node.targets[0], 'id', '') == '_SPACING_GROUP_RE':
+            try:
+                out['spacing_re'] = node.value.args[0].value
+            except Exception:
+                ERRORS.append('spacing regex unreadable')
+    # escape map
+    etree = ast.parse((repo / 'autobean_refactor/models/escaped_string.py').read_text())
+    emap = []
+    patt = {}
+    for node in ast.walk(etree):
+        if isinstance(node, ast.Assign) and len(node.targets) == 1 and isinstance(node.targets[0], ast.Name):
+            n = node.targets[0].id
+            if n.endswith('ESCAPE_MAP') and not n.endswith('UNESCAPE_MAP') and isinstance(node.value, ast.Dict):
+                for k, v in zip(node.value.keys, node.value.values):
+                    if isinstance(k, ast.Constant) and isinstance(v, ast.Constant):
+                        emap.append((k.value, v.value))
+            if n.endswith('_PATTERN') and isinstance(node.value, ast.Call) and node.value.args and isinstance(node.value.args[0], ast.Constant):
+                patt[n.lstrip('_')] = node.value.args[0].value
+    out['escape_map'] = emap
+    out['escape_patterns'] = patt
+    # lark terminals (raw source text of the definition, whitespace-normalised)
+    terms = {}
+    for line in (repo / 'autobean_refactor/beancount.lark').read_text().splitlines():
+        m = re.match(r'^([A-Z_][A-Z0-9_]*)(\.\d+)?\s*:\s*(.*)$', line)
+        if m:
+            terms[m.group(1)] = (m.group(2) or '') + '|' + ' '.join(m.group(3).split())
+    out['terminals'] = terms
+    # editor: newline modes and the makedirs guard
+    src = (repo / 'autobean_refactor/editor.py').read_text()
+    edt = ast.parse(src)
+    opens = []
+    for node in ast.walk(edt):
+        if isinstance(node, ast.Call):
+            fn = node.func
+            name = fn.attr if isinstance(fn, ast.Attribute) else getattr(fn, 'id', '')
+            if name in ('open', 'read_text', 'write_text'):
+                nl = next((ast.unparse(k.value) for k in node.keywords if k.arg == 'newline'), 'ABSENT')
+                mode = ast.unparse(node.args[1]) if name == 'open' and isinstance(fn, ast.Name) and len(node.args) > 1 else (
+                    ast.unparse(node.args[0]) if name == 'open' and isinstance(fn, ast.Attribute) and node.args else "'r'")
+                opens.append((name, mode, nl))
+    out['editor_opens'] = opens
+    guarded = False
+    for node in ast.walk(edt):
+        if isinstance(node, ast.If):
+            if any(isinstance(c, ast.Call) and getattr(c.func, 'attr', '') == 'makedirs' for c in ast.walk(node)):
+                guarded = True
+    out['editor_makedirs_guarded'] = guarded
+    return out
+
+
+def emit_consts(c) -> str:
+    lf = c['lf']
+    pl = c['postlex']
+    L = ['/- GENERATED by extract/extract.py from /repo sources. Do not edit. -/', 'import Autobean.Model.Store', '',
+         'namespace Autobean.Generated', '',
+         f'/-- token_store._LOAD_FACTOR etc., constant expressions evaluated. -/',
+         f'def loadFactor : LF := ⟨{lf[0]}, {lf[1]}, {lf[2]}, {lf[3]}⟩', '',
+         f'def postlexSplitRe : String := {lstr(pl.get("_NEWLINE_INDENT_COMMENT_SPLIT_RE", ""))}',
+         f'def postlexSplitFlags : String := {lstr(pl.get("_NEWLINE_INDENT_COMMENT_SPLIT_RE#flags", ""))}',
+         'def postlexNames : List (String × String) := ' + llist(
+             [(k, pl.get(k, '')) for k in ('_NEWLINE_INDENT_COMMENT', '_NEWLINE', '_EOL', '_INDENT_MARK', '_DEDENT_MARK', '_INDENT', '_BLOCK_COMMENT')],
+             lambda kv: f'({lstr(kv[0])}, {lstr(kv[1])})'),
+         'def buildTreeLiterals : List String := ' + llist(c['build_tree_literals'], lstr),
+         f'def spacingRe : String := {lstr(c["spacing_re"])}',
+         'def escapeMap : List (String × String) := ' + llist(c['escape_map'], lambda kv: f'({lstr(kv[0])}, {lstr(kv[1])})'),
+         'def escapePatterns : List (String × String) := ' + llist(sorted(c['escape_patterns'].items()), lambda kv: f'({lstr(kv[0])}, {lstr(kv[1])})'),
+         'def terminals : List (String × String) := ' + llist(sorted(c['terminals'].items()), lambda kv: f'({lstr(kv[0])}, {lstr(kv[1])})'),
+         'def editorOpens : List (String × String × String) := ' + llist(c['editor_opens'], lambda t: f'({lstr(t[0])}, {lstr(t[1])}, {lstr(t[2])})'),
+         f'def editorMakedirsGuarded : Bool := {"true" if c["editor_makedirs_guarded"] else "false"}',
+         '', 'end Autobean.Generated', '']
+    return '\n'.join(L)
+
+
+# ---------------------------------------------------------------------------------------------------- Schema
+
+def token_defaults(repo: Path):
+    """class name -> DEFAULT text, for every token class with a literal DEFAULT."""
+    d = {}
+    for p in sorted((repo / 'autobean_refactor/models').rglob('*.py')):
+        if p.name.endswith('_test.py'):
+            continue
+        try:
+            tree = ast.parse(p.read_text())
+        except SyntaxError as e:
+            ERRORS.append(f'{p.name}: {e}')
+            continue
+        for node in ast.walk(tree):
+            if isinstance(node, ast.ClassDef):
+                for st in node.body:
+                    if isinstance(st, ast.Assign) and len(st.targets) == 1 and getattr(st.targets[0], 'id', '') == 'DEFAULT':
+                        try:
+                            d[node.name] = const_eval(st.value, {})
+                        except Exception:
+                            pass
+    return d
+
+
+def parse_seps(node, defaults, where):
+    """tuple of `X.from_default()` -> [(X, default text)]"""
+    if node is None:
+        return None
+    if not isinstance(node, ast.Tuple):
+        ERRORS.append(f'{where}: separators is not a tuple literal')
+        return []
+    out = []
+    for e in node.elts:
+        if isinstance(e, ast.Call) and isinstance(e.func, ast.Attribute) and e.func.attr == 'from_default' and isinstance(e.func.value, ast.Name):
+            cls = e.func.value.id
+            if cls not in defaults:
+                ERRORS.append(f'{where}: no DEFAULT known for {cls}')
+            out.append((cls, defaults.get(cls, '')))
+        else:
+            ERRORS.append(f'{where}: unreadable separator {ast.unparse(e)}')
+    return out
+
+
+def parse_chain(node, where):
+    """`(self._a and self._a.last_token) or self._b.last_token or ...` -> [(field, border, guarded)]"""
+    parts = node.values if isinstance(node, ast.BoolOp) and isinstance(node.op, ast.Or) else [node]
+    out = []
+    for p in parts:
+        if isinstance(p, ast.BoolOp) and isinstance(p.op, ast.And) and len(p.values) == 2:
+            a, b = p.values
+            if (isinstance(a, ast.Attribute) and isinstance(a.value, ast.Name) and a.value.id == 'self' and
+                    isinstance(b, ast.Attribute) and isinstance(b.value, ast.Attribute) and b.value.attr == a.attr):
+                out.append((a.attr, b.attr, True))
+                continue
+        if isinstance(p, ast.Attribute) and isinstance(p.value, ast.Attribute) and isinstance(p.value.value, ast.Name) and p.value.value.id == 'self':
+            out.append((p.value.attr, p.attr, False))
+            continue
+        ERRORS.append(f'{where}: unreadable chain part {ast.unparse(p)}')
+    return out
+
+
+FIELD_KINDS = {'required_field': 0, 'optional_left_field': 1, 'optional_right_field': 2, 'repeated_field': 3}
+
+
+def field_ctor(value):
+    """`internal.optional_left_field[T](separators=...)` -> (kind name, keywords) or None"""
+    if not isinstance(value, ast.Call):
+        return None
+    f = value.func
+    if isinstance(f, ast.Subscript):
+        f = f.value
+    name = f.attr if isinstance(f, ast.Attribute) else getattr(f, 'id', None)
+    if name in FIELD_KINDS:
+        return name, {k.arg: k.value for k in value.keywords}
+    return None
+
+
+def extract_class(cls: ast.ClassDef, defaults, mixin_fields, fname):
+    where = f'{fname}:{cls.name}'
+    info = {'name': cls.name, 'rule': '', 'fields': [], 'indent_by': False, 'pivots': {}, 'first': [], 'last': [],
+            'clone': [], 'clone_indent_by': False, 'reattach': [], 'reattach_store': False, 'eq': [], 'eq_isinstance': '',
+            'from_children': [], 'from_children_reattach': [], 'auto_claim': [], 'iter_children': [], 'props': [],
+            'bases': [ast.unparse(b) for b in cls.bases]}
+    uses_mixin = any('SurroundingCommentsMixin' in b for b in info['bases'])
+    if uses_mixin:
+        info['fields'].append(mixin_fields['_leading_comment'])
+    for st in cls.body:
+        if isinstance(st, ast.Assign) and len(st.targets) == 1 and isinstance(st.targets[0], ast.Name):
+            n = st.targets[0].id
+            if n == 'RULE' and isinstance(st.value, ast.Constant):
+                info['rule'] = st.value.value
+            fc = field_ctor(st.value)
+            if fc:
+                kind, kw = fc
+                info['fields'].append({'name': n, 'kind': FIELD_KINDS[kind],
+                                       'seps': parse_seps(kw.get('separators'), defaults, where + '.' + n) or [],
+                                       'seps_before': parse_seps(kw.get('separators_before'), defaults, where + '.' + n)})
+            elif isinstance(st.value, ast.Call) and 'data_field' in ast.unparse(st.value.func) and n == 'indent_by':
+                info['indent_by'] = True
+            elif isinstance(st.value, ast.Call):
+                fn = ast.unparse(st.value.func)
+                short = fn.split('.')[-1].split('[')[0]
+                if short in ('optional_node_property', 'required_node_property', 'repeated_node_property',
+                             'repeated_node_with_interleaving_comments_property'):
+                    args = [ast.unparse(a).split('.')[-1] for a in st.value.args]
+                    info['props'].append((n, short, args))
+        elif isinstance(st, ast.FunctionDef):
+            body = [b for b in st.body if not (isinstance(b, ast.Expr) and isinstance(b.value, ast.Constant))]
+            if st.name.endswith('_pivot') and body and isinstance(body[-1], ast.Return):
+                info['pivots'][st.name] = parse_chain(body[-1].value, where + '.' + st.name)
+            elif st.name in ('first_token', 'last_token') and body and isinstance(body[-1], ast.Return):
+                info['first' if st.name == 'first_token' else 'last'] = parse_chain(body[-1].value, where + '.' + st.name)
+            elif st.name == 'clone' and body and isinstance(body[-1], ast.Return) and isinstance(body[-1].value, ast.Call):
+                call = body[-1].value
+                for a in call.args[1:]:
+                    m = re.match(r'type\(self\)\.(\w+)\.clone\(self\.(\w+), token_store, token_transformer\)$', ast.unparse(a))
+                    if m and m.group(1) == m.group(2):
+                        info['clone'].append(m.group(1))
+                    else:
+                        ERRORS.append(f'{where}.clone: unreadable argument {ast.unparse(a)}')
+                        info['clone'].append('?' + ast.unparse(a))
+                info['clone_indent_by'] = any(k.arg == 'indent_by' and ast.unparse(k.value) == 'self.indent_by' for k in call.keywords)
+            elif st.name == '_reattach':
+                for b in body:
+                    s = ast.unparse(b)
+                    if s == 'self._token_store = token_store':
+                        info['reattach_store'] = True
+                        continue
+                    m = re.match(r'self\.(\w+) = type\(self\)\.(\w+)\.reattach\(self\.(\w+), token_store, token_transformer\)$', s)
+                    if m and m.group(1) == m.group(2) == m.group(3):
+                        info['reattach'].append(m.group(1))
+                    else:
+                        ERRORS.append(f'{where}._reattach: unreadable statement {s}')
+            elif st.name == '_eq' and body and isinstance(body[-1], ast.Return):
+                v = body[-1].value
+                parts = v.values if isinstance(v, ast.BoolOp) and isinstance(v.op, ast.And) else [v]
+                for p in parts:
+                    s = ast.unparse(p)
+                    m = re.match(r'isinstance\(other, (\w+)\)$', s)
+                    if m:
+                        info['eq_isinstance'] = m.group(1)
+                        continue
+                    m = re.match(r'self\.(\w+) == other\.(\w+)$', s)
+                    if m and m.group(1) == m.group(2):
+                        info['eq'].append(m.group(1))
+                    else:
+                        ERRORS.append(f'{where}._eq: unreadable conjunct {s}')
+                        info['eq'].append('?' + s)
+            elif st.name == 'from_children':
+                for b in body:
+                    if isinstance(b, ast.Assign) and getattr(b.targets[0], 'id', '') == 'tokens' and isinstance(b.value, ast.List):
+                        for e in b.value.elts:
+                            s = ast.unparse(e.value if isinstance(e, ast.Starred) else e)
+                            m = re.match(r'cls\.(\w+)\.detach_with_separators\((\w+)\)$', s)
+                            if m:
+                                info['from_children'].append('F:' + m.group(1))
+                                continue
+                            m = re.match(r'(\w+)\.detach\(\)$', s)
+                            if m:
+                                info['from_children'].append('D:' + m.group(1))
+                                continue
+                            m = re.match(r'(\w+)\.from_default\(\)$', s)
+                            if m:
+                                info['from_children'].append('S:' + m.group(1))
+                                continue
+                            ERRORS.append(f'{where}.from_children: unreadable token element {s}')
+                    elif isinstance(b, ast.Expr):
+                        m = re.match(r'cls\.(\w+)\.reattach\((\w+), token_store\)$', ast.unparse(b))
+                        if m:
+                            info['from_children_reattach'].append(m.group(1))
+            elif st.name == 'auto_claim_comments':
+                for b in body:
+                    s = ast.unparse(b)
+                    m = re.match(r'self\.(claim_leading_comment|claim_trailing_comment)\(ignore_if_already_claimed=True\)$', s)
+                    if m:
+                        info['auto_claim'].append('self:' + m.group(1))
+                        continue
+                    m = re.match(r'type\(self\)\.(\w+)\.auto_claim_comments\(self\.(\w+)\)$', s)
+                    if m and m.group(1) == m.group(2):
+                        info['auto_claim'].append('field:' + m.group(1))
+                        continue
+                    m = re.match(r'self\.(\w+)\.auto_claim_comments\(\)$', s)
+                    if m:
+                        info['auto_claim'].append('prop:' + m.group(1))
+                        continue
+                    if s == 'pass':
+                        continue
+                    ERRORS.append(f'{where}.auto_claim_comments: unreadable statement {s}')
+            elif st.name == 'iter_children_formatted':
+                for b in body:
+                    s = ast.unparse(b)
+                    m = re.match(r'yield from type\(self\)\.(\w+)\.iter_children_formatted\(self\.(\w+), (True|False)\)$', s)
+                    if m:
+                        info['iter_children'].append('F:' + m.group(1))
+                        continue
+                    m = re.match(r'yield \((\w+)\.from_default\(\), (True|False)\)$', s)
+                    if m:
+                        info['iter_children'].append('S:' + m.group(1))
+                        continue
+    if uses_mixin:
+        info['fields'].append(mixin_fields['_trailing_comment'])
+    return info
+
+
+def extract_schema(repo: Path):
+    defaults = token_defaults(repo)
+    mixin_fields = {}
+    mtree = ast.parse((repo / 'autobean_refactor/models/internal/surrounding_comments.py').read_text())
+    for node in ast.walk(mtree):
+        if isinstance(node, ast.ClassDef) and node.name == 'SurroundingCommentsMixin':
+            for st in node.body:
+                if isinstance(st, ast.Assign) and len(st.targets) == 1 and isinstance(st.targets[0], ast.Name):
+                    fc = field_ctor(st.value)
+                    if fc:
+                        kind, kw = fc
+                        mixin_fields[st.targets[0].id] = {
+                            'name': st.targets[0].id, 'kind': FIELD_KINDS[kind],
+                            'seps': parse_seps(kw.get('separators'), defaults, 'SurroundingCommentsMixin') or [], 'seps_before': None}
+    for k in ('_leading_comment', '_trailing_comment'):
+        if k not in mixin_fields:
+            ERRORS.append(f'SurroundingCommentsMixin.{k} not found')
+            mixin_fields[k] = {'name': k, 'kind': 1, 'seps': [], 'seps_before': None}
+    classes = []
+    for p in sorted((repo / 'autobean_refactor/models/generated').glob('*.py')):
+        if p.name == '__init__.py':
+            continue
+        try:
+            tree = ast.parse(p.read_text())
+        except SyntaxError as e:
+            ERRORS.append(f'{p.name}: {e}')
+            continue
+        for node in tree.body:
+            if isinstance(node, ast.ClassDef) and any('tree_model' in ast.unparse(d) for d in node.decorator_list):
+                classes.append(extract_class(node, defaults, mixin_fields, p.name))
+    return classes, defaults
+
+
+def emit_schema(classes) -> str:
+    def seps(s):
+        return llist(s, lambda kv: f'({lstr(kv[0])}, {lstr(kv[1])})')
+
+    def field(f):
+        sb = 'none' if f['seps_before'] is None else f'(some {seps(f["seps_before"])})'
+        return f'⟨{lstr(f["name"])}, {f["kind"]}, {seps(f["seps"])}, {sb}⟩'
+
+    def chain(c):
+        return llist(c, lambda t: f'⟨{lstr(t[0])}, {lstr(t[1])}, {"true" if t[2] else "false"}⟩')
+    L = ['/- GENERATED by extract/extract.py from /repo/autobean_refactor/models/generated/*.py. Do not edit. -/',
+         'import Autobean.Model.Schema', '', 'namespace Autobean.Generated', 'open Autobean.Schema', '']
+    names = []
+    for c in classes:
+        ident = 'cls' + c['name']
+        names.append(ident)
+        L.append(f'def {ident} : ClassSchema :=')
+        L.append(f'  {{ name := {lstr(c["name"])}, rule := {lstr(c["rule"])}, hasIndentBy := {"true" if c["indent_by"] else "false"},')
+        L.append('    fields := ' + llist(c['fields'], field) + ',')
+        L.append('    pivots := ' + llist(sorted(c['pivots'].items()), lambda kv: f'({lstr(kv[0])}, {chain(kv[1])})') + ',')
+        L.append(f'    firstToken := {chain(c["first"])}, lastToken := {chain(c["last"])},')
+        L.append(f'    cloneFields := {llist(c["clone"], lstr)}, cloneIndentBy := {"true" if c["clone_indent_by"] else "false"},')
+        L.append(f'    reattachFields := {llist(c["reattach"], lstr)}, reattachStore := {"true" if c["reattach_store"] else "false"},')
+        L.append(f'    eqFields := {llist(c["eq"], lstr)}, eqIsinstance := {lstr(c["eq_isinstance"])},')
+        L.append(f'    fromChildren := {llist(c["from_children"], lstr)}, fromChildrenReattach := {llist(c["from_children_reattach"], lstr)},')
+        L.append(f'    autoClaim := {llist(c["auto_claim"], lstr)}, iterChildren := {llist(c["iter_children"], lstr)},')
+        L.append('    props := ' + llist(c['props'], lambda t: f'({lstr(t[0])}, {lstr(t[1])}, {llist(t[2], lstr)})') + ' }')
+        L.append('')
+    L.append('def allClasses : List ClassSchema := ' + llist(names))
+    L += ['', 'end Autobean.Generated', '']
+    return '\n'.join(L)
+
+
+# ---------------------------------------------------------------------------------------------------- Effects
+
+MUTATORS = {'splice', '_splice', 'insert_after', 'insert_before', 'remove', 'replace', 'update', '_update_raw_text'}
+AMBIGUOUS = {'remove', 'replace', 'update'}  # also list/str/dict methods: count only on a store-looking receiver
+READ_DUNDERS = {'__eq__', '__hash__', '__iter__', '__len__', '__getitem__', '__contains__', '__deepcopy__', '__repr__', '__reversed__'}
+READ_NAMES = {'tokens', 'print_model', 'first_token', 'last_token', 'token_store', 'keys', 'values', 'items', 'clone', '_clone', '_eq'}
+
+
+def role_of(fn: ast.FunctionDef):
+    decs = [ast.unparse(d) for d in fn.decorator_list]
+    if any(d.endswith('.setter') for d in decs):
+        return 'setter'
+    if any(d == 'property' or d.endswith('cached_property') for d in decs):
+        return 'getter'
+    if any(d.split('.')[-1] in ('custom_property', 'cached_custom_property') for d in decs):
+        return 'getter'
+    if fn.name in READ_DUNDERS or fn.name in READ_NAMES:
+        return 'getter'
+    if fn.name in ('_get', '__get__'):
+        return 'getter'
+    return 'method'
+
+
+def extract_effects(repo: Path):
+    defs = {}   # qualname -> info
+    by_simple = {}
+    pkg = repo / 'autobean_refactor'
+    for p in sorted(pkg.rglob('*.py')):
+        rel = p.relative_to(pkg)
+        if p.name.endswith('_test.py') or rel.parts[0] in ('modelgen', 'meta_models', 'tests') or 'conftest' in p.name:
+            continue
+        try:
+            tree = ast.parse(p.read_text())
+        except SyntaxError as e:
+            ERRORS.append(f'{rel}: {e}')
+            continue
+        mod = '.'.join(rel.with_suffix('').parts)
+
+        def visit(node, prefix, cls):
+            for ch in ast.iter_child_nodes(node):
+                if isinstance(ch, ast.ClassDef):
+                    visit(ch, prefix + [ch.name], ch.name)
+                elif isinstance(ch, (ast.FunctionDef, ast.AsyncFunctionDef)):
+                    q = '.'.join([mod] + prefix + [ch.name])
+                    if q in defs:  # property getter + setter share a name
+                        q = q + '#' + role_of(ch)
+                    stores, muts, plain, selfm = set(), [], set(), set()
+                    for n in ast.walk(ch):
+                        if isinstance(n, ast.Attribute) and isinstance(n.ctx, ast.Store):
+                            stores.add((ast.unparse(n.value), n.attr))
+                        if isinstance(n, ast.Call):
+                            f = n.func
+                            if isinstance(f, ast.Attribute):
+                                recv = ast.unparse(f.value)
+                                if f.attr in MUTATORS and (f.attr not in AMBIGUOUS or 'store' in recv.lower()):
+                                    muts.append((recv, f.attr))
+                                if recv == 'self':
+                                    selfm.add(f.attr)
+                            elif isinstance(f, ast.Name):
+                                plain.add(f.id)
+                    defs[q] = {'mod': mod, 'cls': cls, 'name': ch.name, 'role': role_of(ch), 'stores': stores,
+                               'muts': muts, 'plain': plain, 'selfm': selfm}
+                    by_simple.setdefault((mod, ch.name), []).append(q)
+                    visit(ch, prefix + [ch.name], cls)
+        visit(tree, [], None)
+    raw_text_writers = sorted(q for q, d in defs.items() if any(a == '_raw_text' for _, a in d['stores']))
+    size_writers = sorted(q for q, d in defs.items() if any(a == 'size' and r in ('self', 'token') for r, a in d['stores']))
+    touchers = sorted(q for q, d in defs.items() if d['muts'])
+    # read-only roles reaching a mutator through plain calls (same module) and self-method calls (same class)
+    reach_cache = {}
+
+    def reach(q, seen):
+        if q in reach_cache:
+            return reach_cache[q]
+        if q in seen:
+            return set()
+        seen = seen | {q}
+        d = defs[q]
+        r = {f'{recv}.{m}' for recv, m in d['muts']}
+        for name in d['plain']:
+            for q2 in by_simple.get((d['mod'], name), []):
+                if defs[q2]['cls'] is None:
+                    r |= {f'{name}>' + x for x in reach(q2, seen)}
+        for name in d['selfm']:
+            for q2 in by_simple.get((d['mod'], name), []):
+                if defs[q2]['cls'] == d['cls'] and d['cls'] is not None and defs[q2]['role'] != 'setter':
+                    r |= {f'self.{name}>' + x for x in reach(q2, seen)}
+        reach_cache[q] = r
+        return r
+    getters_touching = []
+    for q, d in sorted(defs.items()):
+        if d['role'] == 'getter':
+            r = reach(q, frozenset())
+            if r:
+                getters_touching.append((q, sorted(r)))
+    n_getters = sum(1 for d in defs.values() if d['role'] == 'getter')
+    return {'raw_text_writers': raw_text_writers, 'size_writers': size_writers, 'touchers': touchers,
+            'getters_touching': getters_touching, 'n_defs': len(defs), 'n_getters': n_getters}
+
+
+def emit_effects(e) -> str:
+    L = ['/- GENERATED by extract/extract.py from /repo/autobean_refactor/**/*.py (tests, modelgen, meta_models excluded). Do not edit. -/',
+         '', 'namespace Autobean.Generated', '',
+         f'def nDefs : Nat := {e["n_defs"]}', f'def nGetters : Nat := {e["n_getters"]}',
+         '/-- defs that store an attribute named `_raw_text` -/',
+         'def rawTextWriters : List String := ' + llist(e['raw_text_writers'], lstr),
+         '/-- defs that store `self.size` / `token.size` -/',
+         'def sizeWriters : List String := ' + llist(e['size_writers'], lstr),
+         '/-- defs that call a store mutator (splice, _splice, insert_after, insert_before, remove, replace, update on a store, _update_raw_text) -/',
+         'def storeTouchers : List String := ' + llist(e['touchers'], lstr),
+         '/-- read-only roles (getters, __eq__, __hash__, __iter__, __len__, tokens, print_model, __deepcopy__ …) from which a store mutator is reachable -/',
+         'def gettersTouching : List (String × List String) := ' + llist(e['getters_touching'], lambda kv: f'({lstr(kv[0])}, {llist(kv[1], lstr)})'),
+         '', 'end Autobean.Generated', '']
+    return '\n'.join(L)
+
+
+def main(argv):
+    repo = Path(argv[1])
+    out = Path(argv[2])
+    consts = extract_consts(repo)
+    classes, defaults = extract_schema(repo)
+    effects = extract_effects(repo)
+    changed = []
+    if write_if_changed(out / 'Consts.lean', emit_consts(consts)):
+        changed.append('Consts')
+    if write_if_changed(out / 'Schema.lean', emit_schema(classes)):
+        changed.append('Schema')
+    if write_if_changed(out / 'Effects.lean', emit_effects(effects)):
+        changed.append('Effects')
+    errs = ['/- GENERATED by extract/extract.py. Constructs of the source the translator could not read. -/', '',
+            'namespace Autobean.Generated', '', 'def extractErrors : List String := ' + llist(ERRORS, lstr), '', 'end Autobean.Generated', '']
+    if write_if_changed(out / 'Errors.lean', '\n'.join(errs)):
+        changed.append('Errors')
+    print(f'extract: {len(classes)} classes, {effects["n_defs"]} defs, {len(ERRORS)} unreadable constructs; rewritten: {changed or "nothing"}')
+    for e in ERRORS[:20]:
+        print('  unreadable:', e)
+    return 0
+
+
+if __name__ == '__main__':
+    sys.exit(main(sys.argv))
